@@ -109,6 +109,20 @@ class OptIntV:
         self.val = val
 
 
+class SuperProxy:
+    def __init__(self, obj, cls):
+        self.obj = obj
+        self.cls = cls
+
+    def lookup(self, name):
+        mro = self.obj.cls.__mro__
+        start = mro.index(self.cls) + 1 if self.cls in mro else 0
+        for k in mro[start:]:
+            if name in k.__dict__:
+                return k.__dict__[name]
+        raise PyRaise(AttributeError, name)
+
+
 class MethodHook:
     """A modelled method of an opaque value: fn(engine, obj, *args) -> value."""
 
@@ -146,6 +160,7 @@ class Frame:
         self.nonlocals = set()
         self.fn_name = fn_name
         self.yields = None
+        self.cls_name = parent.cls_name if parent is not None else None
 
     def lookup(self, name):
         f = self
@@ -214,7 +229,7 @@ def py_type_of(v):
 def is_symbolic(v):
     if isinstance(v, (tuple, list)):
         return any(is_symbolic(x) for x in v)
-    return isinstance(v, (z3.ExprRef, ListV, OpaqueV, ObjV, Closure, BoundM, ExcV, OptIntV))
+    return isinstance(v, (z3.ExprRef, ListV, OpaqueV, ObjV, Closure, BoundM, ExcV, OptIntV, SuperProxy))
 
 
 ASCII_LETTER = z3.Union(z3.Range("a", "z"), z3.Range("A", "Z"))
@@ -337,6 +352,12 @@ class Engine:
         self.heap = {}
         self.cur_call = 0
         frame = Frame(self.module.__dict__, fn_name=self.fn_node.name)
+        frame.cls_name = _class_of_qualname(self.fn_obj.__qualname__)
+        for cv, cell in zip(self.fn_obj.__code__.co_freevars, self.fn_obj.__closure__ or ()):
+            try:
+                frame.env[cv] = cell.cell_contents
+            except ValueError:
+                pass
         self.root_frame = frame
         args = {}
         for name, t in self.sigcase.items():
@@ -557,6 +578,7 @@ class Engine:
         post = self.views(self.args)
         # ghost access to the function's locals at exit (for clauses about objects it created)
         post.locals_ = self.loop_views(self.root_frame)
+        post.ghost_ = self.ghost
         if kind == "raise":
             e = val
             allowed = None
@@ -927,6 +949,9 @@ class Engine:
             self.pc.append(n >= 0)
             cur.term = LLeaf(self.fresh(name + ".arr", "arr"), n, name)
             return cur
+        if isinstance(cur, ObjV) and cur.model is not None and hasattr(cur.model, "havoc"):
+            cur.model.havoc(self, cur, name)
+            return cur
         raise Unsupported(f"cannot havoc {name} ({type(cur).__name__}); give Inv(types=...)")
 
     def make_fresh_of(self, name, t):
@@ -1040,7 +1065,7 @@ class Engine:
             self.setitem(obj, idx, v)
         elif isinstance(t, ast.Attribute):
             obj = self.ev(t.value, fr)
-            self.setattr(obj, t.attr, v)
+            self.setattr(obj, self.mangle(t.attr, fr), v)
         else:
             raise Unsupported(f"assign target {type(t).__name__}")
 
@@ -1697,11 +1722,29 @@ class Engine:
             return lst
         return [lst.term.sel(i) for i in range(n)]
 
+    def mangle(self, name, fr):
+        if name.startswith("__") and not name.endswith("__") and fr.cls_name:
+            return "_" + fr.cls_name.lstrip("_") + name
+        return name
+
     def ex_Attribute(self, e, fr):
         obj = self.ev(e.value, fr)
-        return self.getattr(obj, e.attr)
+        return self.getattr(obj, self.mangle(e.attr, fr))
 
     def getattr(self, obj, name):
+        if isinstance(obj, SuperProxy):
+            f = obj.lookup(name)
+            if isinstance(f, property):
+                return self.call(f.fget, [obj.obj], {})
+            if isinstance(f, staticmethod):
+                return f.__func__
+            if isinstance(f, classmethod):
+                return BoundM(obj.obj.cls, name, f.__func__)
+            if isinstance(f, types.FunctionType):
+                return BoundM(obj.obj, name, f)
+            if name == "__init__":
+                return BoundM(obj.obj, name, MethodHook(lambda en, o, *a, **k: None))
+            return f
         if isinstance(obj, ObjV):
             if obj.model is not None:
                 r = obj.model.getattr(self, obj, name)
@@ -1709,6 +1752,8 @@ class Engine:
                     return r
             if name in obj.fields:
                 return obj.fields[name]
+            if obj.model is not None and name in getattr(obj.model, "methods", ()):
+                return BoundM(obj, name)
             static = inspect.getattr_static(obj.cls, name, None)
             if static is None:
                 raise PyRaise(AttributeError, name)
@@ -1760,6 +1805,8 @@ class Engine:
 
     # -------------------------------------------------------------- calls
     def ex_Call(self, e, fr):
+        if isinstance(e.func, ast.Name) and e.func.id == "super" and not e.args and "super" not in fr.env:
+            return self.make_super(fr)
         fn = self.ev(e.func, fr)
         args = []
         for a in e.args:
@@ -1782,6 +1829,18 @@ class Engine:
                 kwargs[k.arg] = self.ev(k.value, fr)
         self.cur_call_node = e
         return self.call(fn, args, kwargs)
+
+    def make_super(self, fr):
+        f = fr
+        while f is not None and not f.cls_name:
+            f = f.parent
+        if f is None or "self" not in fr.env and "self" not in f.env:
+            raise Unsupported("super() outside a method")
+        obj = fr.lookup("self")
+        cls = fr.globals.get(f.cls_name)
+        if not isinstance(obj, ObjV) or not isinstance(cls, type):
+            raise Unsupported("super() on a non-model object")
+        return SuperProxy(obj, cls)
 
     def call(self, fn, args, kwargs, key=None):
         from . import builtins_model as BM
@@ -1840,8 +1899,22 @@ class Engine:
         node, module = function_ast(fn)
         return self.call_ast(node, None, module.__dict__, args, kwargs, real=fn)
 
+    def closure_env(self, fn):
+        f = fn.__func__ if isinstance(fn, (staticmethod, classmethod)) else fn
+        env = {}
+        for cv, cell in zip(f.__code__.co_freevars, f.__closure__ or ()):
+            try:
+                env[cv] = cell.cell_contents
+            except ValueError:
+                pass
+        return env, _class_of_qualname(f.__qualname__)
+
     def call_ast(self, node, parent_frame, globs, args, kwargs, real=None):
         fr = Frame(globs, parent=parent_frame, fn_name=node.name)
+        if real is not None:
+            cenv, cname = self.closure_env(real)
+            fr.env.update(cenv)
+            fr.cls_name = cname
         a = node.args
         params = [p.arg for p in a.posonlyargs + a.args]
         defaults = a.defaults
@@ -2010,6 +2083,13 @@ class SymRange:
         return simp_int(z3.If(d > 0, d, 0))
 
 
+def _class_of_qualname(q):
+    parts = q.split(".")
+    if len(parts) >= 2 and parts[0] != "<locals>":
+        return parts[0]
+    return None
+
+
 def short(target):
     return target.split(":")[-1]
 
@@ -2091,7 +2171,14 @@ def _native_cmp(op, a, b):
     return table[type(op)](a, b)
 
 
-INLINE_OK: set[str] = set()
+# small pure helpers of the repository that are always interpreted from their source (never assumed)
+INLINE_OK: set[str] = {
+    "odfdo.element:_get_lxml_tag_or_name", "odfdo.element:_get_lxml_tag", "odfdo.element:_decode_qname",
+    "odfdo.element:Element._generic_attrib_getter.<locals>.getter",
+    "odfdo.element:Element._generic_attrib_setter.<locals>.setter",
+    "odfdo.element:Element._generic_attrib_setter.<locals>.setter.fset",
+    "odfdo.utils.isiterable:isiterable",
+}
 
 
 def target_key(fn):
